@@ -186,8 +186,13 @@ func (u *Unmarshaler) fillSlice(fieldType reflect.Type, value reflect.Value, map
 		valid = true
 		switch dereffedBaseKind {
 		case reflect.Struct:
+			ithMap, ok := ithValue.(map[string]any)
+			if !ok {
+				return errTypeMismatch
+			}
+
 			target := reflect.New(dereffedBaseType)
-			if err := u.Unmarshal(ithValue.(map[string]any), target.Interface()); err != nil {
+			if err := u.Unmarshal(ithMap, target.Interface()); err != nil {
 				return err
 			}
 
